@@ -415,7 +415,9 @@ def roundtrip(c, name, yaml_path, cmdline, base, variant, how, rng):
 # ---------------------------------------------------------------------------
 
 LIBS_QUICK = [("tutorial", "tutorial.yaml", []), ("classes", "classes.yaml", []),
-              ("clibrary", "clibrary.yaml", [])]
+              ("clibrary", "clibrary.yaml", []),
+              # namespaces nested in namespaces, not flattened: module-level blocks of the outer and the inner module
+              ("names", "names.yaml", []), ("namespace", "namespace.yaml", [])]
 
 
 def run(tier):
